@@ -6,8 +6,10 @@ IDS="$*"; [ -z "$IDS" ] && IDS=$(ls seeded | grep '^C')
 miss=0
 for name in $IDS; do
   id=${name%%-*} # seeded/C07-r2 is a second seeded change for C07
-  r=$(scripts/seed_eval.sh $id "$PWD/seeded/$name/patch.diff" $TIER 2>&1 | grep '^SEED' | tail -1)
-  echo "$name: $r"
+  out=$(scripts/seed_eval.sh $id "$PWD/seeded/$name/patch.diff" $TIER 2>&1)
+  r=$(echo "$out" | grep '^SEED' | tail -1)
+  sig=$(echo "$out" | grep -o "^  $id:[^ ]*" | head -1 | tr -d ' ')
+  echo "$name: $r $sig"
   case "$r" in *CAUGHT*) ;; *) miss=1;; esac
 done
 exit $miss
